@@ -1749,3 +1749,19 @@ package resolve
 //@   safety no-bounds
 //@   loop 0:
 //@     invariant g_nRec == g_nUndef && !g_undef
+
+// C10: a deferred batch may descend into the objects stamped by any ancestor defer, not only by the direct parent -
+// otherwise the fields of a defer nested three deep are never rendered and the merged result lacks data. The chain walk
+// is pinned for the first two levels (parent, grandparent); deeper levels follow by the same step (loop not unrolled).
+//@ func Resolvable.isDeferAncestor
+//@   requires r != nil
+//@   let p0 = parentID
+//@   let gp = ite(has(r.deferDescriptors, parentID), r.deferDescriptors[parentID].ParentID, 0)
+//@   ensures {the.top.level.has.no.ancestor} p0 == 0 ==> !result
+//@   ensures {the.direct.parent.is.an.ancestor} p0 != 0 && fieldDeferID == p0 ==> result
+//@   ensures {the.grandparent.is.an.ancestor} p0 != 0 && fieldDeferID != p0 && fieldDeferID != 0 && fieldDeferID == gp ==> result
+//@   ensures {only.a.defer.is.an.ancestor} result ==> fieldDeferID != 0
+//@   pure
+//@   safety no-nilmap
+//@   loop 0:
+//@     invariant parentID == p0 || (p0 != 0 && fieldDeferID != p0 && parentID == gp) || (p0 != 0 && fieldDeferID != p0 && fieldDeferID != gp)
